@@ -40,12 +40,12 @@ def write_fasta(fp: str, seqs: dict[str, str], width: int = 60) -> None:
     pysam.faidx(fp)
 
 
-def vcf_text(contigs: dict[str, int], records: list[dict], info_tags: list[str], tag_types: dict | None = None) -> str:
+def vcf_text(contigs: dict[str, int], records: list[dict], info_tags: list[str], tag_types: dict | None = None, tag_numbers: dict | None = None) -> str:
     lines = ['##fileformat=VCFv4.2']
     for c, n in contigs.items():
         lines.append(f'##contig=<ID={c},length={n}>')
     for t in info_tags:
-        lines.append(f'##INFO=<ID={t},Number=1,Type={(tag_types or {}).get(t, "String")},Description="{t}">')
+        lines.append(f'##INFO=<ID={t},Number={(tag_numbers or {}).get(t, 1)},Type={(tag_types or {}).get(t, "String")},Description="{t}">')
     lines.append('#CHROM\tPOS\tID\tREF\tALT\tQUAL\tFILTER\tINFO')
     for r in records:
         alts = r.get('alts')
@@ -131,7 +131,7 @@ def materialise(d: dict, root: str, out_name: str = 'out') -> list[str]:
             argv += ['--gff', os.path.join(root, 'annot.gtf')]
         if d.get('pam') is not None:
             recs = [{'pos': p['pos'], 'ref': p['ref'], 'alts': [p['alt']], 'contig': p.get('contig', contig),
-                     'info': ({'SGRNA': p['sgrna']} if p.get('sgrna') is not None else {})} for p in d['pam']]
+                     'info': ({'SGRNA': p.get('sgrna_raw', p['sgrna'])} if p.get('sgrna') is not None else {})} for p in d['pam']]
             _write(os.path.join(root, 'pam.vcf'), vcf_text(contig_lens, both(recs), ['SGRNA']))
             argv += ['--pam', os.path.join(root, 'pam.vcf')]
         if d.get('vcfs') is not None:
@@ -143,7 +143,8 @@ def materialise(d: dict, root: str, out_name: str = 'out') -> list[str]:
                 if not v.get('missing'):
                     tags = list(v.get('declared_tags') if v.get('declared_tags') is not None else
                                 ([v['id_tag']] if v.get('id_tag') else []))
-                    _write(fp, vcf_text(contig_lens, both(v['records']), tags, {v['id_tag']: v['id_type']} if v.get('id_tag') and v.get('id_type') else None))
+                    _write(fp, vcf_text(contig_lens, both(v['records']), tags, {v['id_tag']: v['id_type']} if v.get('id_tag') and v.get('id_type') else None,
+                                        {v['id_tag']: v['id_number']} if v.get('id_tag') and v.get('id_number') else None))
                     if v.get('indexed'):
                         import pysam
                         pysam.tabix_index(fp, preset='vcf', force=True)      # -> fp.gz (bgzip) + fp.gz.tbi; the plain file is removed
